@@ -121,7 +121,7 @@ func c04Conservation(e *Engine) {
 	}
 	want := new(big.Int).Add(init, e.M.Minted)
 	want.Sub(want, e.M.Burned)
-	got := e.C.Supply(chain.MintDenom)
+	got := e.C.Supply(e.MintDenom())
 	if got.Cmp(want) != 0 {
 		e.viol([]string{"C04", "C05"}, "conservation", "supply-conservation",
 			fmt.Sprintf("supply %s != initial %s + minted %s (sum over %d accepted burn messages) - burned %s", got, init, e.M.Minted, e.M.AcceptedBurnMsg, e.M.Burned), nil)
@@ -130,7 +130,7 @@ func c04Conservation(e *Engine) {
 
 // ---------------------------------------------------------------- C08
 
-var c08Limits = []*big.Int{big.NewInt(1), big.NewInt(2), big.NewInt(1000000), Two64, Two255, Max256}
+var c08Limits = []*big.Int{big.NewInt(0), big.NewInt(1), big.NewInt(2), big.NewInt(1000000), Two64, Two255, Max256}
 
 var PNames = []string{"P1", "P2", "P3", "P4", "P5", "P6", "P7", "P8P9", "P10", "PFrom"}
 
@@ -368,7 +368,10 @@ func runC08(rc *RunCtx) {
 					if amt.BitLen() > 256 {
 						continue // not representable on the wire
 					}
-					if d.name == "limit-1" && amt.Sign() == 0 {
+					if d.name == "limit-1" && amt.Sign() <= 0 {
+						mask = P1Amount
+					}
+					if d.name == "limit" && amt.Sign() == 0 {
 						mask = P1Amount
 					}
 					if d.name == "2^256-1" && lim.Cmp(Max256) == 0 {
@@ -427,7 +430,7 @@ func runC08(rc *RunCtx) {
 			}
 			for v := 0; v < rc.Pick(20, 100); v++ {
 				from := Acct(v % NAccounts)
-				bal := e.C.Balance(AcctBytes(v%NAccounts), chain.MintDenom)
+				bal := e.C.Balance(AcctBytes(v%NAccounts), e.MintDenom())
 				amt := []*big.Int{bal, new(big.Int).Add(bal, big.NewInt(1)), big.NewInt(1)}[v%3]
 				tx := Tx{Msgs: msgs1(&ct.MsgDepositForBurn{From: from, Amount: mkInt(amt), DestinationDomain: 0, MintRecipient: Structured32(3), BurnToken: "uusdc"}), Note: "C08 real-ledger"}
 				rep := e.Exec(tx)
